@@ -28,19 +28,46 @@ Proof.
   rewrite In_add, IH. split; [intros [->|[H|H]]|intros [H|[->|H]]]; auto.
 Qed.
 
+(* ---------- the permission test of the code is containment in the ACE's permission set.
+   [perm_in] runs the REGENERATED is_nonstr_iter and AllPermissionsList.__contains__; the script only computes, so a
+   rewrite of those functions with the same answers on the four kinds of objects is absorbed, any other fails. *)
+Lemma perm_in_spec p v : perm_in p v = perm_has p v.
+Proof. destruct v; reflexivity. Qed.
+
+Lemma normalise_never_self_atom v : normalise gen_is_nonstr_iter v <> Self PAtom.
+Proof. destruct v; discriminate. Qed.
+
+(* what the normalisation is for: a bare str is wrapped (compared as a whole), every iterable is used as it is *)
+Lemma normalise_spec v :
+  normalise gen_is_nonstr_iter v = match v with PStr _ | PAtom => Wrapped v | _ => Self v end.
+Proof. destruct v; reflexivity. Qed.
+
+(* without the normalisation Python's [in] on a bare str is a substring test ("treats a string permission as a
+   character set"): it differs from containment, e.g. "vi" in "view" *)
+Lemma raw_membership_is_substring p s : contains gen_all_contains p (Self (PStr s)) = is_substr p s.
+Proof. reflexivity. Qed.
+
+Example raw_membership_differs :
+  let vi := [118; 105]%N in let view := [118; 105; 101; 119]%N in
+  contains gen_all_contains vi (Self (PStr view)) = true /\ perm_has vi (PStr view) = false.
+Proof. vm_compute. split; reflexivity. Qed.
+
+Lemma ace_matches_spec ps p e : ace_matches ps p e = spec_matches ps p e.
+Proof. unfold ace_matches, spec_matches. rewrite perm_in_spec. reflexivity. Qed.
+
 (* ---------- permits = first match *)
 Definition decide (o : option ace) : bool :=
   match o with Some e => match act e with Allow => true | _ => false end | None => false end.
 
 Lemma scan_acl_find ps p a i :
   match scan_acl ps p a i with
-  | Some (b, j) => exists e, find (ace_matches ps p) a = Some e /\ nth_error a (j - i) = Some e
+  | Some (b, j) => exists e, find (spec_matches ps p) a = Some e /\ nth_error a (j - i) = Some e
                              /\ i <= j /\ b = decide (Some e)
-  | None => find (ace_matches ps p) a = None
+  | None => find (spec_matches ps p) a = None
   end.
 Proof.
   revert i; induction a as [|e r IH]; intros i; simpl; [reflexivity|].
-  destruct (ace_matches ps p e) eqn:E.
+  rewrite ace_matches_spec. destruct (spec_matches ps p e) eqn:E.
   - exists e. rewrite Nat.sub_diag. simpl. repeat split; auto.
   - specialize (IH (S i)). destruct (scan_acl ps p r (S i)) as [[b j]|]; [|exact IH].
     destruct IH as (e' & H1 & H2 & H3 & H4). exists e'. repeat split; auto; try lia.
@@ -128,7 +155,7 @@ Qed.
 
 (* child Deny beats parent Allow, and the dual *)
 Theorem child_decides child parents ps p e :
-  find (ace_matches ps p) child = Some e ->
+  find (spec_matches ps p) child = Some e ->
   granted (permits (Some child :: parents) ps p) = decide (Some e).
 Proof.
   intros H. rewrite permits_first_match. unfold spec_granted, first_match, flatten. simpl.
@@ -137,15 +164,15 @@ Qed.
 
 (* ---------- principals_allowed is consistent with permits *)
 Definition scanb (ps : list text) (p : text) (a : acl) : option bool :=
-  match find (ace_matches ps p) a with Some e => Some (decide (Some e)) | None => None end.
+  match find (spec_matches ps p) a with Some e => Some (decide (Some e)) | None => None end.
 
 Lemma scanb_cons ps p e r :
-  scanb ps p (e :: r) = if ace_matches ps p e then Some (decide (Some e)) else scanb ps p r.
-Proof. unfold scanb. simpl. destruct (ace_matches ps p e); reflexivity. Qed.
+  scanb ps p (e :: r) = if spec_matches ps p e then Some (decide (Some e)) else scanb ps p r.
+Proof. unfold scanb. simpl. destruct (spec_matches ps p e); reflexivity. Qed.
 
 Lemma matches_pair q p e :
-  ace_matches [q; everyone] p e = (text_eqb (who e) q || text_eqb (who e) everyone) && perm_in p (what e).
-Proof. unfold ace_matches. simpl. rewrite orb_false_r. reflexivity. Qed.
+  spec_matches [q; everyone] p e = (text_eqb (who e) q || text_eqb (who e) everyone) && perm_has p (what e).
+Proof. unfold spec_matches. simpl. rewrite orb_false_r. reflexivity. Qed.
 
 Lemma pa_scan_keep p q a : forall al ah dh al' ah',
   forallb wf_action a = true ->
@@ -155,16 +182,17 @@ Proof.
   induction a as [|e r IH]; intros al ah dh al' ah' Hwf H Hq; simpl in *.
   - inversion H; subst. split; [assumption|discriminate].
   - apply andb_true_iff in Hwf. destruct Hwf as [Hw Hwf]. unfold wf_action in Hw.
+    rewrite ?perm_in_spec in H.
     rewrite scanb_cons, matches_pair.
     destruct (act e) eqn:Ea; try discriminate.
     + (* Allow *)
       assert (HH : exists ah2, pa_scan p r al ah2 dh = (al', ah')).
-      { destruct (perm_in p (what e) && negb (mem_text (who e) dh)); eauto. }
+      { destruct (perm_has p (what e) && negb (mem_text (who e) dh)); eauto. }
       destruct HH as (ah2 & HH). destruct (IH _ _ _ _ _ Hwf HH Hq) as [I1 I2]. split; [assumption|].
-      destruct ((text_eqb (who e) q || text_eqb (who e) everyone) && perm_in p (what e));
+      destruct ((text_eqb (who e) q || text_eqb (who e) everyone) && perm_has p (what e));
         [unfold decide; rewrite Ea; discriminate|assumption].
     + (* Deny *)
-      destruct (perm_in p (what e)) eqn:Ep.
+      destruct (perm_has p (what e)) eqn:Ep.
       * destruct (text_eqb_spec (who e) everyone) as [Ee|Ee].
         { inversion H; subst. contradiction. }
         destruct (IH _ _ _ _ _ Hwf H Hq) as [I1 I2]. apply In_remove in I1. destruct I1 as [I1 I3].
@@ -185,15 +213,16 @@ Proof.
   induction a as [|e r IH]; intros al ah dh st al' ah' Hwf H1 H2 H Hq; simpl in *.
   - inversion H; subst. rewrite (H1 Hq). reflexivity.
   - apply andb_true_iff in Hwf. destruct Hwf as [Hw Hwf]. unfold wf_action in Hw.
+    rewrite ?perm_in_spec in H.
     rewrite scanb_cons, matches_pair.
     destruct (act e) eqn:Ea; try discriminate.
     + (* Allow *)
-      set (m := (text_eqb (who e) q || text_eqb (who e) everyone) && perm_in p (what e)).
+      set (m := (text_eqb (who e) q || text_eqb (who e) everyone) && perm_has p (what e)).
       assert (Hst : st_then st (if m then Some (decide (Some e)) else scanb [q; everyone] p r)
                     = st_then (st_then st (if m then Some true else None)) (scanb [q; everyone] p r)).
       { unfold decide. rewrite Ea. destruct st, m; reflexivity. }
       rewrite Hst.
-      destruct (perm_in p (what e) && negb (mem_text (who e) dh)) eqn:Ec.
+      destruct (perm_has p (what e) && negb (mem_text (who e) dh)) eqn:Ec.
       * apply andb_true_iff in Ec. destruct Ec as [Ep Ed]. apply negb_true_iff in Ed.
         eapply IH; try eassumption.
         -- intros Hin. apply In_add in Hin. destruct Hin as [->|Hin].
@@ -208,7 +237,7 @@ Proof.
         -- intros Hs. apply H2. destruct st as [[|]|]; simpl in Hs; try discriminate; auto.
            destruct m; discriminate.
     + (* Deny *)
-      destruct (perm_in p (what e)) eqn:Ep.
+      destruct (perm_has p (what e)) eqn:Ep.
       * destruct (text_eqb_spec (who e) everyone) as [Ee|Ee].
         { inversion H; subst. rewrite (H1 Hq). reflexivity. }
         rewrite orb_false_r, andb_true_r.
@@ -233,7 +262,7 @@ Lemma spec_granted_cons_some a L ps p :
   match scanb ps p a with Some b => b | None => spec_granted L ps p end.
 Proof.
   unfold spec_granted, first_match, flatten, scanb. simpl. rewrite find_app.
-  destruct (find (ace_matches ps p) a); reflexivity.
+  destruct (find (spec_matches ps p) a); reflexivity.
 Qed.
 
 Theorem allowed_consistent L p q :
